@@ -15,6 +15,8 @@ ALL library behaviours.
 import CtyModel.Lemmas.StdNumStr
 import CtyModel.Lemmas.StdNumMisc
 import CtyModel.Lemmas.StdNumFmt
+import CtyModel.Lemmas.d14Fmt
+import CtyModel.Lemmas.d14Str
 import CtyModel.Props.C02
 namespace CtyModel
 namespace C14
@@ -411,31 +413,83 @@ theorem indent_negative_is_error (nfc : String → String) (spaces : Value) (s :
     indentImpl nfc [spaces, sv s] = .err "the number of spaces must not be negative" := by
   simp [indentImpl, hk, h0]
 
-/-- … so `glue_total` holds for `indent` too: no panic for any count. -/
+/-- … so `glue_total` holds for `indent` too: no panic for any count, however large
+(since /repo d4d90b0 the padding is not built when there is no line break, and a result
+beyond `math.MaxInt32` bytes is refused before `strings.Repeat` is reached). -/
 theorem indent_never_panics (nfc : String → String) (x : Num) (s : String) :
     (indentImpl nfc [numVal x, sv s]).isPanic = false := by
-  have hf : (∃ k, fromCtyInt (numVal x) = .ok k) ∨ (∃ c, fromCtyInt (numVal x) = .err c) := by
-    simp only [fromCtyInt, numVal, Gocty.fromNumInt, Gocty.intMinMax]
-    split
-    · right; exact ⟨_, rfl⟩
-    · split
-      · right; exact ⟨_, rfl⟩
-      · left; exact ⟨_, rfl⟩
-  rcases hf with ⟨k, hk⟩ | ⟨c, hk⟩
+  rcases fromCtyInt_cases x with ⟨k, hk⟩ | ⟨c, hk⟩
   · simp only [indentImpl, arg0, arg1, Res.bind_ok, hk]
     split
     · rfl
     · simp only [asString_sv, Res.bind_ok]
-      split <;> rfl
+      split
+      · rfl
+      · split <;> rfl
   · simp [indentImpl, hk, Res.isPanic]
 
-/-- `indent` inserts exactly `k` spaces after every newline and changes nothing else. -/
+/-- `indent` inserts exactly `k` spaces after every newline (`indentChars`) — for EVERY count
+`k ≥ 0` for which the result (`len(s) + k · lines` bytes) is not longer than `math.MaxInt32`;
+no cap of the model's own. -/
 theorem indent_structure (nfc : String → String) (spaces : Value) (s : String) (k : Int)
-    (hk : fromCtyInt spaces = .ok k) (h0 : 0 ≤ k) (hm : k ≤ indentMax) :
+    (hk : fromCtyInt spaces = .ok k) (h0 : 0 ≤ k)
+    (hfit : s.utf8ByteSize + k.toNat * countNewlines s.toList ≤ 2147483647) :
     indentImpl nfc [spaces, sv s] = .ok (stringVal nfc (String.ofList (indentChars k.toNat s.toList))) := by
   have h1 : ¬ k < 0 := by omega
-  have h2 : ¬ k > indentMax := by omega
-  simp [indentImpl, hk, h1, h2]
+  simp only [indentImpl, arg0, arg1, Res.bind_ok, hk, h1, if_false, asString_sv]
+  split
+  · rename_i hl
+    have hl' : countNewlines s.toList = 0 := by simpa using hl
+    rw [indentChars_no_newline _ _ hl']
+    simp [String.ofList_toList]
+  · rename_i hl
+    have hl' : 0 < countNewlines s.toList := by
+      have : countNewlines s.toList ≠ 0 := by simpa using hl
+      omega
+    have h2 : ¬ k > Int.tdiv (goMaxInt32 - (s.utf8ByteSize : Int)) (countNewlines s.toList : Int) := by
+      have hk' : k = (k.toNat : Int) := by omega
+      have hnn : (0 : Int) ≤ goMaxInt32 - (s.utf8ByteSize : Int) := by simp only [goMaxInt32]; omega
+      rw [Int.tdiv_eq_ediv_of_nonneg hnn]
+      have : (k.toNat : Int) * (countNewlines s.toList : Int) ≤ goMaxInt32 - (s.utf8ByteSize : Int) := by
+        have : ((k.toNat * countNewlines s.toList : Nat) : Int) ≤ 2147483647 - (s.utf8ByteSize : Int) := by omega
+        simpa [goMaxInt32] using this
+      have := Int.le_ediv_of_mul_le (by omega : (0 : Int) < (countNewlines s.toList : Int)) this
+      omega
+    simp [h2]
+
+/-- … a result that would be longer is refused with an error (not attempted) … -/
+theorem indent_too_long_is_error (nfc : String → String) (spaces : Value) (s : String) (k : Int)
+    (hk : fromCtyInt spaces = .ok k) (h0 : 0 ≤ k) (hl : 0 < countNewlines s.toList)
+    (hsz : s.utf8ByteSize ≤ 2147483647)
+    (hbig : s.utf8ByteSize + k.toNat * countNewlines s.toList > 2147483647) :
+    indentImpl nfc [spaces, sv s] =
+      .err "the number of spaces is too large: the resulting string would be too long" := by
+  have h1 : ¬ k < 0 := by omega
+  have hl' : (countNewlines s.toList == 0) = false := by simp; omega
+  have h2 : k > Int.tdiv (goMaxInt32 - (s.utf8ByteSize : Int)) (countNewlines s.toList : Int) := by
+    have hnn : (0 : Int) ≤ goMaxInt32 - (s.utf8ByteSize : Int) := by simp only [goMaxInt32]; omega
+    rw [Int.tdiv_eq_ediv_of_nonneg hnn]
+    have hk' : k = (k.toNat : Int) := by omega
+    have hlt : goMaxInt32 - (s.utf8ByteSize : Int) < (k.toNat : Int) * (countNewlines s.toList : Int) := by
+      have : (2147483647 : Int) - (s.utf8ByteSize : Int) < ((k.toNat * countNewlines s.toList : Nat) : Int) := by omega
+      simpa [goMaxInt32] using this
+    have := Int.ediv_lt_of_lt_mul (by omega : (0 : Int) < (countNewlines s.toList : Int)) hlt
+    omega
+  have hl2 : ¬ countNewlines s.toList = 0 := by omega
+  simp [indentImpl, hk, h1, hl2, h2]
+
+/-- … and a string without a line break comes back unchanged for ANY count ≥ 0 (2^62 included). -/
+theorem indent_no_line_break (nfc : String → String) (spaces : Value) (s : String) (k : Int)
+    (hk : fromCtyInt spaces = .ok k) (h0 : 0 ≤ k) (hl : countNewlines s.toList = 0) :
+    indentImpl nfc [spaces, sv s] = .ok (stringVal nfc s) := by
+  have h1 : ¬ k < 0 := by omega
+  simp [indentImpl, hk, h1, hl]
+
+/-- "changes nothing else": deleting the `k` characters after every newline of the indented
+text gives the original back, and the text grew by exactly `k` per line break. -/
+theorem indent_changes_nothing_else (k : Nat) (cs : List Char) :
+    unindentChars k (indentChars k cs) = cs ∧ (indentChars k cs).length = cs.length + k * countNewlines cs :=
+  ⟨unindent_indent k cs, indentChars_length k cs⟩
 
 /-- Result types: the regex family returns a string, a tuple of strings or an object
 of strings according to the capture groups of the pattern; mixing named and
@@ -518,6 +572,148 @@ theorem format_scanner_examples :
     scanVerb ['[', '1', 'd'] 0 1 = none ∧ scanVerb ['$'] 0 1 = none :=
   ⟨rfl, rfl, rfl, rfl, rfl, rfl, rfl, rfl⟩
 
+/-- **The scanner is the documented grammar** `'%' flags* width? ('.' digit*)? ('[' num ']')? letter`
+(`num = [1-9][0-9]*`, flags `0 # - + space`): `scanVerb` accepts `cs`, leaving `rest`, IFF `cs`
+is the spelling of a sentence `g` of that grammar followed by `rest`; the verb it returns is
+the one `g` denotes.  (Everything else — an unknown character, a premature end, `[0]`,
+a width with a leading zero that is not a flag — is "invalid format string".) -/
+theorem format_scanner_is_the_grammar (cs : List Char) (offset nextArg : Nat) (v : Verb) (rest : List Char) :
+    scanVerb cs offset nextArg = some (v, rest) ↔
+      ∃ g : VerbSyn, g.wf = true ∧ cs = g.text ++ rest ∧ v = g.verb offset nextArg :=
+  scanVerb_iff cs offset nextArg v rest
+
+/-- … with the parsed fields equal to the denoted numbers: width / precision / `[n]` are the
+saturating decimal values of their digit strings, an absent `[n]` means "the next argument",
+`.` without digits is precision 0, the raw text is the sentence itself … -/
+theorem format_parsed_fields (g : VerbSyn) (offset nextArg : Nat) :
+    (g.verb offset nextArg).hasWidth = g.width.isSome ∧
+    (g.verb offset nextArg).width = (g.width.map satNum).getD 0 ∧
+    (g.verb offset nextArg).hasPrec = g.prec.isSome ∧
+    (g.verb offset nextArg).prec = (g.prec.map satNum).getD 0 ∧
+    (g.verb offset nextArg).argNum = (g.idx.map satNum).getD nextArg ∧
+    (g.verb offset nextArg).mode = g.mode ∧
+    (g.verb offset nextArg).offset = offset ∧
+    (g.verb offset nextArg).raw = '%' :: g.text :=
+  verb_fields g offset nextArg
+
+/-- … and each flag set iff its character occurs among the flags. -/
+theorem format_parsed_flags (g : VerbSyn) (hg : g.wf = true) (offset nextArg : Nat) :
+    (g.verb offset nextArg).zero = g.flags.contains '0' ∧ (g.verb offset nextArg).sharp = g.flags.contains '#' ∧
+    (g.verb offset nextArg).minus = g.flags.contains '-' ∧ (g.verb offset nextArg).plus = g.flags.contains '+' ∧
+    (g.verb offset nextArg).space = g.flags.contains ' ' :=
+  verb_flags g hg offset nextArg
+
+/-- The numbers of a verb never wrap around (`formatArgNumAppendDigit`, /repo 721dbdb 84cbc5e):
+a digit string denotes its decimal value below 9223372036854775800 and the largest `int`
+from there on. -/
+theorem format_numbers_saturate (ds : List Char) (hd : ∀ c ∈ ds, isDigit c = true) :
+    satNum ds = if decVal ds < 9223372036854775800 then decVal ds else 9223372036854775807 :=
+  satNum_eq ds hd
+
+/-- **An explicit argument number beyond the arguments given is an error, whatever its
+size** (the defect repaired by /repo 721dbdb: `%[18446744073709551617]d` used to wrap
+around to argument 1): at a verb `%…[i]…` whose index denotes more than `len(args)`, the
+whole call ends with "not enough arguments".  `args.length < maxInt` holds of every Go slice. -/
+theorem format_explicit_index_beyond_count_is_error (L : Lib) (args : List Value) (fuel : Nat) (g : VerbSyn)
+    (hg : g.wf = true) (i : List Char) (hi : g.idx = some i) (hlen : args.length < 9223372036854775807)
+    (hb : args.length < decVal i) (rest : List Char) (offset nextArg highest : Nat) (buf : String) :
+    fsmLoop L args (fuel + 1) ('%' :: (g.text ++ rest)) offset nextArg highest buf = .err "not enough arguments" := by
+  rw [fsmLoop_verb L args fuel g hg rest, formatAppend_index_beyond L g hg offset nextArg i hi args hlen hb]
+
+/-- The same for a verb without `[n]` when the running argument number is beyond the arguments. -/
+theorem format_not_enough_arguments_implicit (L : Lib) (args : List Value) (fuel : Nat) (g : VerbSyn)
+    (hg : g.wf = true) (hi : g.idx = none) (rest : List Char) (offset nextArg highest : Nat) (buf : String)
+    (hb : args.length < nextArg) :
+    fsmLoop L args (fuel + 1) ('%' :: (g.text ++ rest)) offset nextArg highest buf = .err "not enough arguments" := by
+  rw [fsmLoop_verb L args fuel g hg rest, formatAppend_missing]
+  rw [(verb_fields g offset nextArg).2.2.2.2.1, hi]
+  simpa using hb
+
+/-- **Width and precision beyond 1000000 are an error, whatever their size** (/repo 84cbc5e;
+before it `%18446744073709551617d` wrapped around to width 1 and `%9999999999d` ran out of
+memory): when the verb's argument exists, a width whose digits denote more than 1000000 ends
+the call with an error, and so does such a precision. -/
+theorem format_width_precision_limit (L : Lib) (args : List Value) (g : VerbSyn) (hg : g.wf = true)
+    (offset nextArg : Nat) (a : Value) (h0 : (g.verb offset nextArg).argNum ≠ 0)
+    (ha : args[(g.verb offset nextArg).argNum - 1]? = some a) :
+    (∀ w, g.width = some w → 1000000 < decVal w →
+      formatAppend L (g.verb offset nextArg) args = .err "unsupported width") ∧
+    (∀ p, g.width = none → g.prec = some p → 1000000 < decVal p →
+      formatAppend L (g.verb offset nextArg) args = .err "unsupported precision") := by
+  simp only [VerbSyn.wf, Bool.and_eq_true] at hg
+  constructor
+  · intro w hw hbig
+    have hwf : wfNumOpt g.width = true := hg.1.1.1.2
+    rw [hw] at hwf
+    refine formatAppend_width_limit L _ args a h0 ha ?_ ?_
+    · rw [(verb_fields g offset nextArg).1, hw]; rfl
+    · rw [(verb_fields g offset nextArg).2.1, hw]
+      have := satNum_ge w (isNum_digits hwf) 1000001 hbig (by decide)
+      simp only [Option.map_some, Option.getD_some, formatMaxWidthPrec]; omega
+  · intro p hw hp hbig
+    have hpf : wfDigitsOpt g.prec = true := hg.1.1.2
+    rw [hp] at hpf
+    have hpd : ∀ d ∈ p, isDigit d = true := by simpa [wfDigitsOpt, List.all_eq_true] using hpf
+    refine formatAppend_prec_limit L _ args a h0 ha ?_ ?_ ?_
+    · left; rw [(verb_fields g offset nextArg).1, hw]; rfl
+    · rw [(verb_fields g offset nextArg).2.2.1, hp]; rfl
+    · rw [(verb_fields g offset nextArg).2.2.2.1, hp]
+      have := satNum_ge p hpd 1000001 hbig (by decide)
+      simp only [Option.map_some, Option.getD_some, formatMaxWidthPrec]; omega
+
+/-- **Argument bookkeeping.** At `%` + a sentence of the grammar the verb is rendered at once;
+its error ends the call (so an error of an earlier verb wins over a syntax error further
+right); otherwise the next implicit argument number becomes the verb's own number + 1 — `[n]`
+overrides the running number and "subsequent verbs without an explicit index proceed with
+n+1" — and the highest number used is remembered for the final "too many arguments" test. -/
+theorem format_argument_bookkeeping (L : Lib) (args : List Value) (fuel : Nat) (g : VerbSyn) (hg : g.wf = true)
+    (rest : List Char) (offset nextArg highest : Nat) (buf : String) :
+    fsmLoop L args (fuel + 1) ('%' :: (g.text ++ rest)) offset nextArg highest buf =
+      (match formatAppend L (g.verb offset nextArg) args with
+       | .ok s => fsmLoop L args fuel rest (offset + (g.text.length + 1)) ((g.verb offset nextArg).argNum + 1)
+           (max highest (g.verb offset nextArg).argNum) (buf ++ s)
+       | .err e => .err e
+       | .panic w => .panic w
+       | .unmodelled => .unmodelled) :=
+  fsmLoop_verb L args fuel g hg rest offset nextArg highest buf
+
+/-- Literal characters are copied, `%%` is a percent sign that consumes no argument, and at the
+end arguments beyond the highest number used are the "too many arguments" error. -/
+theorem format_literals_and_end (L : Lib) (args : List Value) (fuel : Nat) (rest : List Char)
+    (offset nextArg highest : Nat) (buf : String) :
+    (∀ c, c ≠ '%' → fsmLoop L args (fuel + 1) (c :: rest) offset nextArg highest buf =
+      fsmLoop L args fuel rest (offset + c.utf8Size) nextArg highest (buf.push c)) ∧
+    fsmLoop L args (fuel + 1) ('%' :: '%' :: rest) offset nextArg highest buf =
+      fsmLoop L args fuel rest (offset + 2) nextArg highest (buf.push '%') ∧
+    fsmLoop L args (fuel + 1) [] offset nextArg highest buf =
+      (if highest < args.length then .err "too many arguments" else .ok buf) :=
+  ⟨fun c hc => fsmLoop_literal L args fuel c hc rest offset nextArg highest buf,
+   fsmLoop_percent L args fuel rest offset nextArg highest buf, fsmLoop_end L args fuel offset nextArg highest buf⟩
+
+/-- The fuel of the model's loop never runs out (it is only there to make the recursion
+structural): any two fuels above the length of the format string give the same result, so
+`.unmodelled` is never returned for lack of fuel. -/
+theorem format_fuel_is_immaterial (L : Lib) (args : List Value) (fuel fuel' : Nat) (cs : List Char)
+    (offset nextArg highest : Nat) (buf : String) (h : cs.length < fuel) (h' : cs.length < fuel') :
+    fsmLoop L args fuel cs offset nextArg highest buf = fsmLoop L args fuel' cs offset nextArg highest buf :=
+  fsmLoop_fuel L args fuel fuel' cs offset nextArg highest buf h h'
+
+/-- `format` never panics — for ANY format string and ANY arguments: the `args[argIdx]` of
+`formatAppend` is never reached with index −1 (scanned argument numbers are ≥ 1) and an index
+beyond the arguments is caught first. -/
+theorem format_never_panics (L : Lib) (f : String) (args : List Value) :
+    (formatImpl L (sv f :: args)).isPanic = false := by
+  simp only [formatImpl, arg0, Res.bind_ok, List.drop_succ_cons, List.drop_zero]
+  split
+  · rfl
+  · simp only [asString_sv, Res.bind_ok]
+    have h := fsmLoop_no_panic L args (f.length + 1) f.toList 0 1 0 "" (Nat.le_refl 1)
+    cases hx : fsmLoop L args (f.length + 1) f.toList 0 1 0 "" with
+    | ok s => rfl
+    | err c => rfl
+    | panic w => rw [hx] at h; simp [Res.isPanic] at h
+    | unmodelled => rfl
+
 /-! ## Non-vacuity -/
 example : Normal (.fin true 5 (-1) 53) := by unfold Normal; decide
 example : ceilImpl [numVal (.fin true 5 (-1) 53)] = .ok (numVal (.fin true 1 1 53)) := rfl   -- ceil(-2.5) = -2
@@ -536,6 +732,31 @@ example : setString "Zz".toList 62 = some 3817 := by decide
 example : setString "1_0".toList 10 = none := by decide
 example : substrClusters ["a", "é", "c"] (-2) 1 = ["é"] := by decide
 example : ¬ ((-2 : Int) < 0 ∧ (1 : Int) = 0) := by decide
+-- the grammar theorems speak of real sentences: "%-5.2[3]d" and the wrap-around witness of 721dbdb
+def exSyn : VerbSyn := { flags := ['-'], width := some ['5'], prec := some ['2'], idx := some ['3'], mode := 'd' }
+example : exSyn.wf = true := by decide
+example : exSyn.text = "-5.2[3]d".toList := by decide
+example : scanVerb ("-5.2[3]d!".toList) 7 1 = some (exSyn.verb 7 1, ['!']) := by decide
+def exHuge : VerbSyn := { flags := [], width := none, prec := none, idx := some "18446744073709551617".toList, mode := 's' }
+example : exHuge.wf = true := by decide
+example : decVal "18446744073709551617".toList = 18446744073709551617 := by decide
+example : satNum "18446744073709551617".toList = 9223372036854775807 := by decide
+example : satNum "9223372036854775800".toList = 9223372036854775807 ∧ satNum "9223372036854775799".toList = 9223372036854775799 := by decide
+example : (exHuge.verb 0 1).argNum = 9223372036854775807 := by decide
+-- "%18446744073709551617d" (the width that wrapped to 1 before 84cbc5e) is refused when its argument exists
+def exLib : Lib :=
+  { nfc := id, clusters := fun s => s.toList.map String.singleton, toUpper := id, toLower := id, title := id,
+    trimSpace := id, trim := fun a _ => a, trimPrefix := fun a _ => a, trimSuffix := fun a _ => a,
+    replaceAll := fun a _ _ => a, split := fun a _ => [a], regexCompile := fun _ => some [],
+    regexReplaceAll := fun _ a _ => a, regexFind := fun _ _ => none, regexFindAll := fun _ _ => [],
+    parseTimestamp := fun _ => none, parseDuration := fun _ => false, timeAdd := fun a _ => a,
+    csvHeader := fun _ => none, csvAll := fun _ _ => ⟨[], false⟩, fmtInt := fun _ i => toString i,
+    fmtFloat := fun _ _ => "", textG := fun _ => "", jsonStr := id }
+def exWide : VerbSyn := { flags := [], width := some "18446744073709551617".toList, prec := none, idx := none, mode := 'd' }
+example : formatAppend exLib (exWide.verb 0 1) [intVal 1] = .err "unsupported width" := by decide
+-- indent: the side conditions are satisfiable, and 2^40 spaces on a string without a line break are fine
+example : countNewlines "a\nb\n".toList = 2 := by decide
+example : indentChars 2 "a\nb".toList = "a\n  b".toList := by decide
 
 end C14
 end CtyModel
